@@ -681,11 +681,14 @@ class XsdElement(XsdComponent, ParticleMixin,
                         for counter in context.identities.values():
                             identity = counter.identity
                             if counter.enabled and xsi_usage not in identity.xsi_usages:
-                                identity.xsi_usages.add(xsi_usage)
                                 try:
                                     identity.update_elements(XPathElement(*xsi_usage))
                                 except TypeError as e:
                                     context.validation_error(validation, self, e, obj)
+
+                                # Record the usage only after the update, another
+                                # thread could be validating with the same schema.
+                                identity.xsi_usages.add(xsi_usage)
 
         if xsd_type.abstract:
             reason = _("%r is abstract") % xsd_type
@@ -881,7 +884,7 @@ class XsdElement(XsdComponent, ParticleMixin,
             xsd_element._set_type(xsd_type)
 
         # Collect field values for identities that refer to this XSD element.
-        for identity in self.selected_by:
+        for identity in tuple(self.selected_by):
             try:
                 counter = context.identities[identity]
             except KeyError:
